@@ -9,6 +9,7 @@ struct C14MOp
 struct C14MPlan
 {
   int nthreads;
+  int recycle;   // 1: the allocator behind alignedMalloc keeps released blocks of 1 MiB or more in a shared cache and hands them out again
   int nops[C14M_MAXT];
   C14MOp ops[C14M_MAXT][C14M_MAXOPS];
 };
@@ -18,5 +19,6 @@ unsigned long long c14m_size(int idx);
 void c14m_fail(const char *cls, const char *msg);
 void c14m_probe(int id);
 void c14m_done();
+void c14m_backend_live(int blocks);   // blocks the back end still counts as allocated after every block was passed to alignedFree
 void c14m_run();
 }
